@@ -75,6 +75,8 @@ Fixpoint amap_get (a : bytes) (id : Z) (m : amap) : option template :=
   | [] => None
   | ((a', id'), t) :: r => if list_eqb a a' && (id =? id') then Some t else amap_get a id r
   end.
+(* template ids are uint16 in the Go code; the abstract map normalises them the same way the key
+   encoding (PutUint16) does *)
 Definition am_ops : cache_ops amap :=
-  {| c_retrieve := fun m id a => Ok (amap_get a id m);
-     c_insert := fun m id a t => Ok (((a, id), t) :: m) |}.
+  {| c_retrieve := fun m id a => Ok (amap_get a (id mod 65536) m);
+     c_insert := fun m id a t => Ok (((a, id mod 65536), t) :: m) |}.
